@@ -15,7 +15,9 @@ JS_SNIPPETS = [
     # an accepted substitution removes the word a later (stale) work item is about: that candidate IS the current best
     b"x.c\na.b.c\n",
 ]
-BRACE_SNIPPETS = [b"{\n\n}\n", b"a\n{\n \n}\nb\n", b"x{\n}y\n{\n}\n"]
+BRACE_SNIPPETS = [b"{\n\n}\n", b"a\n{\n \n}\nb\n", b"x{\n}y\n{\n}\n",
+                  # removing both brace lines and removing the collapsed line give the same file; CRC-32 twins as atoms
+                  b"a\na\n{\n}\n", b"plumless\nbuckeroo\n{\n}\n"]
 
 EXCS = [TestRaised, RuntimeError, KeyboardInterrupt, SystemExit, OSError, GeneratorExit]
 
@@ -133,7 +135,7 @@ def driver_universe(ex, ck, aborts=False, budget=None):
         for wrap in wraps:
             explore("minimize-collapse-brace", {}, lines_tc(data, *wrap),
                     file0=wrap[0] + data + wrap[1], stream="collapse", replay=True,
-                    max_runs=60 if quick else 600)
+                    max_runs=90 if quick else 900)
     for data in JS_SNIPPETS:
         for strategy in others[3:]:
             explore(strategy, {}, lines_tc(data), stream=strategy, replay=strategy != "replace-properties-by-globals",
